@@ -1712,6 +1712,11 @@ func (gen *Generator) GenerateReturn(xs []Sexp) error {
 
 	if n > 1 {
 		gen.AddInstruction(PushInstr{SexpMarker})
+		// the values are collected into a vector: none of them is in
+		// tail position.
+		oldtail := gen.Tail
+		gen.Tail = false
+		defer func() { gen.Tail = oldtail }()
 	}
 	for i := range xs {
 		Q("return calling Generate on xs[i=%v]=%v", i, xs[i].SexpString(nil))
